@@ -76,7 +76,7 @@ def run (ctx : Algo.Ctx) (op : String) (args impl : List String) : Outcome :=
       marker := Utf8.toRunes (dotBytes (o "marker" "226.148.131")),
       ellipsis := Utf8.toRunes (dotBytes (o "ellipsis" "194.183.194.183")),
       hscroll := o "hscroll" "1" == "1", keepRight := o "keepright" "0" == "1", hscrollOff := (o "hoff" "10").toNat!,
-      multi := if su.top.multi == 1000 then maxMulti else su.top.multi }
+      multi := if su.top.multi == 1000 then maxMulti else su.top.multi, headerFirst := o "hfirst" "0" == "1" }
     let header0 := (parseLinesOpt (o "header" "_")).map Utf8.toRunes
     let headerItems := su.headers.map Utf8.toRunes
     let roOf (r : RS) : ROpts :=
@@ -179,8 +179,10 @@ def run (ctx : Algo.Ctx) (op : String) (args impl : List String) : Outcome :=
           let n0 := ro.header0.length
           let n1 := ro.headerItems.length
           let fromBottom (y : Nat) : Nat := H - 1 - y
-          let promptY := match ro.layout with | .reverse => 0 | _ => H - 1
-          let infoY := match ro.layout with | .reverse => 1 | _ => H - 2
+          -- with --header-first the --header lines (and, next to the list, the --header-lines) come before the input section
+          let before := if ro.headerFirst then (match ro.layout with | .reverseList => n0 | _ => n0 + n1) else 0
+          let promptY := match ro.layout with | .reverse => before | _ => H - 1 - before
+          let infoY := match ro.layout with | .reverse => before + 1 | _ => H - 2 - before
           let promptTxt := rowAt promptY
           let wantPrompt := ro.prompt ++ query
           if !ro.inputless ∧ queryFits ro query ∧ r.xoffset == 0 ∧ ro.prompt.length + query.length + 2 < cols ∧ promptTxt.take wantPrompt.length != wantPrompt then
@@ -230,10 +232,11 @@ def run (ctx : Algo.Ctx) (op : String) (args impl : List String) : Outcome :=
           | some w => some w
           | none =>
             -- header lines: shown where the layout puts them, never among the list rows
+            let plh := if ro.headerFirst then 0 else pl
             let hdrY (j : Nat) : Nat := match ro.layout with
-              | .default => fromBottom (pl + (n0 - 1 - j))
-              | .reverse => pl + j
-              | .reverseList => fromBottom (pl + (n0 - 1 - j))
+              | .default => fromBottom (plh + (n0 - 1 - j))
+              | .reverse => plh + j
+              | .reverseList => fromBottom (plh + (n0 - 1 - j))
             (List.range n0).findSome? fun j =>
               let want := rstrip (ro.header0.getD j [])
               let row := rowAt (hdrY j)
@@ -270,7 +273,7 @@ def run (ctx : Algo.Ctx) (op : String) (args impl : List String) : Outcome :=
         (if su.headers.length > 0 then ["header-lines"] else []) ++
         (if live.any (fun r => (viewOf r).rows.any fun x => x.text.length > cols - (Fzf.Render.ind (roOf r) + 1)) then ["truncated"] else []) ++
         (if acts.length ≥ 4 ∧ su.ls.length ≥ 2 then ["nt"] else []) ++
-        (if live.any (·.ts.inputless) then ["hidden-input"] else []) }
+        (if live.any (·.ts.inputless) then ["hidden-input"] else []) ++ (if ro0.headerFirst then ["header-first"] else []) }
   | _, _ => { model := "bad-op" }
 where
   n0tag (h : List Str) : Bool := !h.isEmpty
